@@ -30,6 +30,7 @@ DETECT = {"name": "detect", "quick": 40000, "thorough": 400000}
 READER = {"name": "reader", "quick": 8000, "thorough": 60000}
 RENDER = {"name": "render", "quick": 3000, "thorough": 60000}
 VT = {"name": "vt", "quick": 1500, "thorough": 30000}
+GLUE = {"name": "glue", "quick": 250, "thorough": 4000}
 
 INPUT_RULE = ("detect: all buffers of <=1 byte and 13x256 (thorough: all) of 2 bytes, all words <=3 (thorough 4) over an 18-byte branch alphabet, every documented key alone/alt/with a tail, all 256 SGR codes x {M,m}, all X10 codes, huge numeric parameters, then seeded structured/mutated/malformed buffers, each with both canHaveMoreData flags; "
               "reader: every documented key between two random events, every event kind at every alignment against the 256-byte buffer, pastes of 0..513 (thorough 4096) bytes cut after the start marker, seeded event streams under whole/full-256/random/byte-wise chunkings. distinct = distinct op lines; non-trivial = not the empty buffer")
@@ -40,7 +41,7 @@ _CFG = {
     "C02": {"scenarios": ["cmds"], "trusted": RUNTIME_TRUST},
     "C03": {"scenarios": ["seq"], "trusted": RUNTIME_TRUST},
     "C04": {"scenarios": ["term"], "trusted": RUNTIME_TRUST},
-    "C05": {"scenarios": ["modes"], "trusted": RENDER_TRUST},
+    "C05": {"scenarios": ["modes", "exec"], "streams": [GLUE], "trusted": RENDER_TRUST},
     "C06": {"streams": [RENDER, VT], "rule": RENDER_RULE, "trusted": RENDER_TRUST},
     "C07": {"streams": [RENDER], "rule": RENDER_RULE, "trusted": RENDER_TRUST},
     "C08": {"streams": [DETECT, READER], "rule": INPUT_RULE, "trusted": INPUT_TRUST},
@@ -48,12 +49,13 @@ _CFG = {
             "assumptions": ["the reader goroutine's cancellation (ctx.Done arm of the send) is covered by the C04 scenarios, not by this model"]},
     "C10": {"streams": [DETECT, READER], "rule": INPUT_RULE, "trusted": INPUT_TRUST},
     "C11": {"streams": [DETECT], "rule": INPUT_RULE, "trusted": INPUT_TRUST},
-    "C12": {"scenarios": ["modes"], "trusted": RENDER_TRUST},
+    "C12": {"scenarios": ["modes"], "streams": [GLUE], "trusted": RENDER_TRUST},
     "C13": {"scenarios": ["api"], "trusted": RUNTIME_TRUST},
     "C14": {"streams": [RENDER, VT], "rule": RENDER_RULE, "trusted": RENDER_TRUST},
     "C15": {"streams": [READER], "rule": INPUT_RULE, "trusted": INPUT_TRUST},
     "C16": {"scenarios": ["filter"], "trusted": RUNTIME_TRUST},
-    "C19": {"streams": [RENDER], "rule": RENDER_RULE, "trusted": RENDER_TRUST},
+    "C17": {"scenarios": ["exec"], "streams": [GLUE], "trusted": RENDER_TRUST + ["input hand-over to the exec'd command depends on cancelreader/epoll semantics: observed on an os.Pipe, not proved"]},
+    "C19": {"streams": [RENDER, {"name": "fps", "quick": 2000, "thorough": 100000}], "rule": RENDER_RULE, "trusted": RENDER_TRUST},
     "C20": {"streams": [{"name": "every", "quick": 6000, "thorough": 200000}], "scenarios": ["timing"],
             "rule": "every: Every's delay expression evaluated by Go's time package vs the Lean model on boundary instants (+-1ns), zero/negative/huge durations and seeded random instants; timing: real Tick/Every commands. distinct = distinct (instant, duration) lines; non-trivial = positive duration",
             "trusted": ["Go timers do not fire before their duration has elapsed (Timer.notEarly hypothesis; sampled by the timing scenario)"]},
